@@ -20,7 +20,7 @@ def const_sized(ldir, tag, nshards=8):
         env = {"WOWM_OBJECTS": os.path.join(ldir, "objects.ndjson"), "WOWM_BLOCKS": os.path.join(ldir, "blocks.ndjson"),
                "WOWM_INDEX": os.path.join(ldir, "index.json"), "WOWM_NSHARDS": nshards, "WOWM_SHARD": k,
                "WOWM_NPROF": 1, "WOWM_MAXLEN": 2, "WOWM_ONLY": "", "WOWM_DEEP": "0", "WOWM_FAULTS": "0",
-               "WOWM_FAULT_EVERY": 1, "WOWM_CONST": EMPTY_LIST}
+               "WOWM_FAULT_EVERY": 1, "WOWM_FAULT_PHASE": 0, "WOWM_CONST": EMPTY_LIST}
         return C.run_tlc("MCConst", workers=1, timeout=900, env=env, name="%s-const-%d" % (tag, k), coverage=False, xmx="3g")
 
     with concurrent.futures.ThreadPoolExecutor(nshards) as ex:
@@ -51,7 +51,7 @@ def _run_shard(args):
         "WOWM_INDEX": os.path.join(ldir, "index.json"),
         "WOWM_NSHARDS": nshards, "WOWM_SHARD": shard, "WOWM_NPROF": nprof, "WOWM_MAXLEN": maxlen,
         "WOWM_ONLY": only, "WOWM_DEEP": "1" if deep else "0",
-        "WOWM_FAULTS": faults, "WOWM_FAULT_EVERY": fault_every,
+        "WOWM_FAULTS": faults, "WOWM_FAULT_EVERY": fault_every, "WOWM_FAULT_PHASE": C.seed() % max(int(fault_every), 1),
         "WOWM_CONST": const_path or EMPTY_LIST,
     }
     with open(outpath, "w") as sink:
